@@ -162,7 +162,15 @@ func (goh *GoatOverHttp) ServeHTTP(w http.ResponseWriter, r *http.Request) {
 	}
 
 	verifhook.At("http.deliver", rpc.GetId())
-	conn.readCh <- &rpc
+	select {
+	case conn.readCh <- &rpc:
+	case <-conn.closed:
+		// timed out (or cancelled) while we were delivering
+		log.Error().Msgf("GoatOverHttp: connection to %s closed during delivery", source)
+		http.Error(w, "connection closed", http.StatusServiceUnavailable)
+	case <-r.Context().Done():
+		http.Error(w, "request cancelled", http.StatusServiceUnavailable)
+	}
 }
 
 // connectionCleaner ticks every |connectionCleanupInterval|, closing any
@@ -200,6 +208,7 @@ func (goh *GoatOverHttp) retrieve(id string) (*httpReadWriter, bool) {
 		conn = &httpReadWriter{
 			writeAddr: id,
 			readCh:    make(chan *Rpc),
+			closed:    make(chan struct{}),
 			cancel:    func() { goh.unregister(id) },
 			clock:     goh.clock,
 		}
@@ -219,7 +228,8 @@ func (goh *GoatOverHttp) unregister(id string) {
 
 func (goh *GoatOverHttp) unregisterLocked(id string) {
 	if conn, ok := goh.conns.value[id]; ok {
-		close(conn.readCh)
+		// readCh is never closed: a ServeHTTP may be sending on it right now
+		close(conn.closed)
 	}
 
 	delete(goh.conns.value, id)
@@ -228,6 +238,7 @@ func (goh *GoatOverHttp) unregisterLocked(id string) {
 type httpReadWriter struct {
 	writeAddr string
 	readCh    chan *Rpc
+	closed    chan struct{} // closed when the connection is unregistered
 	cancel    func()
 
 	clock        clockwork.Clock
@@ -235,13 +246,16 @@ type httpReadWriter struct {
 }
 
 func (hrw *httpReadWriter) Read(ctx context.Context) (*Rpc, error) {
-	rpc, ok := <-hrw.readCh
-	if !ok {
+	select {
+	case rpc := <-hrw.readCh:
+		hrw.bumpActivity()
+		return rpc, nil
+	case <-hrw.closed:
 		log.Error().Msgf("HttpRpcReadWriter: read err: closed")
 		return nil, errors.New("readCh closed")
+	case <-ctx.Done():
+		return nil, ctx.Err()
 	}
-	hrw.bumpActivity()
-	return rpc, nil
 }
 
 func (hrw *httpReadWriter) Write(ctx context.Context, rpc *Rpc) error {
